@@ -5,6 +5,8 @@ func init() {
 	const ctxf = "internal/engine/command/context.go"
 	const mon = "internal/bus/monitor.go"
 	addMutants(
+		Mutant{Property: "C16", Name: "monitor-skips-empty-account-metadata", File: "internal/bus/monitor.go",
+			Old: "func (l *ledgerMonitor) SavedMetadata(ctx context.Context, targetType, targetID string, metadata metadata.Metadata) {\n", New: "func (l *ledgerMonitor) SavedMetadata(ctx context.Context, targetType, targetID string, metadata metadata.Metadata) {\n\tif len(metadata) == 0 {\n\t\treturn\n\t}\n", Expect: "R16f:ledgerMonitor.SavedMetadata"},
 		Mutant{Property: "C14", Name: "dry-run-publishes-committed", File: cmdr,
 			Old: "\tif !parameters.DryRun {\n\t\tcommander.monitor.CommittedTransactions(", New: "\tif !parameters.DryRun || len(script.Metadata) > 0 {\n\t\tcommander.monitor.CommittedTransactions(", Expect: "R14a:(*internal/engine/command.Commander).CreateTransaction:monitor.CommittedTransactions"},
 		Mutant{Property: "C14", Name: "dry-run-publishes-deleted", File: cmdr,
